@@ -1,27 +1,1486 @@
+// c18: damaged segment files.
+//
+//	(a) direct: the real utils.ChecksumFile (AppendChunk / AppendPartialChunk / Flush /
+//	    ReadAt) on generated chunk files, every truncation length and single-byte
+//	    modifications; the property oracle is evaluated on the implementation's results
+//	    ("original data or an error, never altered data; intact chunks unaffected") and
+//	    Coq case files compare the byte-exact file layout and every ReadAt result
+//	    (data / end-of-file error / integrity error) with the model ChecksumFile.v.
+//	(b) fault enumeration end to end: a small store (log segment A = 2 blocks, log
+//	    segment B = 1 block, one metrics segment) is built by the real writer; for every
+//	    sampled mutation of one stored file a fresh worker process (timeout, ulimit -v)
+//	    runs the queries on the damaged store.  Outcome classes: same / events missing or
+//	    error / ALTERED values / crash / hang / other segment affected.
+//	    The column files (.csg) of the store are also fed to (a): real files written by
+//	    writeWip must be write_chunks of their blocks, and ReadAt on their damaged
+//	    versions must agree with the model.
 package main
 
 import (
+	"bytes"
+	"context"
+	"encoding/json"
 	"fmt"
+	"io"
 	"os"
 	"os/exec"
 	"path/filepath"
+	"regexp"
+	"sort"
+	"strconv"
+	"strings"
+	"sync"
+	"time"
+
+	"github.com/siglens/siglens/pkg/utils"
+	log "github.com/sirupsen/logrus"
+
+	"verifharness/vhlib"
 )
+
+// ---------------------------------------------------------------------------
+// (a) direct
+// ---------------------------------------------------------------------------
+
+type wop struct {
+	Kind string `json:"k"` // chunk | partial | flush
+	Data []byte `json:"d,omitempty"`
+}
+
+func (o wop) coq() string {
+	switch o.Kind {
+	case "chunk":
+		return "OpChunk " + vhlib.CoqBytes(o.Data)
+	case "partial":
+		return "OpPartial " + vhlib.CoqBytes(o.Data)
+	}
+	return "OpFlush"
+}
+
+type mut struct {
+	Kind string `json:"kind"` // keep | trunc | flip
+	K    int    `json:"k"`
+	V    int    `json:"v"`
+}
+
+func (m mut) coq() string {
+	switch m.Kind {
+	case "trunc":
+		return fmt.Sprintf("Trunc %d", m.K)
+	case "flip":
+		return fmt.Sprintf("Flip %d %d", m.K, m.V)
+	}
+	return "Keep"
+}
+func (m mut) apply(f []byte) []byte {
+	out := append([]byte{}, f...)
+	switch m.Kind {
+	case "trunc":
+		if m.K < len(out) {
+			out = out[:m.K]
+		}
+	case "flip":
+		if m.K < len(out) {
+			out[m.K] = byte(m.V)
+		}
+	}
+	return out
+}
+
+type readReq struct{ Off, Len int }
+
+// real ReadAt -> (code, data): 0 ok, 1 end of file, 2 checksum mismatch, 4 buffer length mismatch,
+// 5 not the start of a chunk, 3 panic / unclassified error
+func realRead(path string, off, n int) (code int, data []byte, msg string) {
+	defer func() {
+		if r := recover(); r != nil {
+			code, data, msg = 3, nil, fmt.Sprintf("panic: %v", r)
+		}
+	}()
+	fd, err := os.Open(path)
+	if err != nil {
+		return 1, nil, err.Error()
+	}
+	defer fd.Close()
+	csf := &utils.ChecksumFile{Fd: fd}
+	buf := make([]byte, n)
+	got, err := csf.ReadAt(buf, int64(off))
+	if err == nil {
+		if got != n {
+			return 3, nil, fmt.Sprintf("nil error but %d of %d bytes", got, n)
+		}
+		return 0, buf, ""
+	}
+	s := err.Error()
+	switch {
+	case err == io.EOF, strings.Contains(s, "Cannot read"):
+		return 1, nil, s
+	case strings.Contains(s, "checksum mismatch"):
+		return 2, nil, s
+	case strings.Contains(s, "buffer length mismatch"):
+		return 4, nil, s
+	case strings.Contains(s, "not the start of a chunk"):
+		return 5, nil, s
+	}
+	return 3, nil, "unclassified error: " + s
+}
+
+// writes the ops with the real ChecksumFile; returns the file
+func realWrite(path string, ops []wop) ([]byte, error) {
+	_ = os.Remove(path)
+	fd, err := os.OpenFile(path, os.O_RDWR|os.O_CREATE, 0o644)
+	if err != nil {
+		return nil, err
+	}
+	csf := &utils.ChecksumFile{Fd: fd}
+	for _, o := range ops {
+		switch o.Kind {
+		case "chunk":
+			_ = csf.AppendChunk(o.Data) // an error return leaves the file unchanged (model: None)
+		case "partial":
+			_ = csf.AppendPartialChunk(o.Data)
+		case "flush":
+			_ = csf.Flush()
+		}
+	}
+	fd.Close()
+	return os.ReadFile(path)
+}
+
+type chunkPos struct{ Off, Len int } // file offset of the magic number, data length
+
+// layout of a well-formed chunk file (harness side; the model checks the same bytes)
+func scanChunks(f []byte) ([]chunkPos, bool) {
+	var out []chunkPos
+	p := 0
+	for p < len(f) {
+		if p+12 > len(f) || utils.BytesToUint32LittleEndian(f[p:p+4]) != 0x87654321 {
+			return out, false
+		}
+		n := int(utils.BytesToUint32LittleEndian(f[p+8 : p+12]))
+		if p+12+n > len(f) {
+			return out, false
+		}
+		out = append(out, chunkPos{p, n})
+		p += 12 + n
+	}
+	return out, true
+}
+
+type directCase struct {
+	Kind  string `json:"kind"`
+	Ops   []wop  `json:"ops,omitempty"`
+	File  []byte `json:"file"`
+	Mut   mut    `json:"mutation"`
+	Off   int    `json:"offset"`
+	Len   int    `json:"len"`
+	Code  int    `json:"code"`
+	Data  []byte `json:"data,omitempty"`
+	Error string `json:"error,omitempty"`
+}
+
+func fieldName(o int) string {
+	switch {
+	case o < 4:
+		return "magic"
+	case o < 8:
+		return "crc"
+	case o < 12:
+		return "len"
+	}
+	return "data"
+}
+
+// runs reads on every mutation of one file; oracle + observations for Coq.
+// chunks == nil: not a well-formed chunk file (legacy / misuse): only "no panic" + model comparison.
+func sweepFile(sum *vhlib.Summary, tag string, ops []wop, file []byte, chunks []chunkPos, muts []mut, r *vhlib.Rng, tmp string) ([]string, int) {
+	// aligned reads: every run i..j of chunks
+	var reads []readReq
+	type span struct{ i, j int }
+	var spans []span
+	for i := range chunks {
+		n := 0
+		for j := i; j < len(chunks); j++ {
+			n += chunks[j].Len
+			reads = append(reads, readReq{chunks[i].Off, n})
+			spans = append(spans, span{i, j})
+		}
+	}
+	nAligned := len(reads)
+	// other reads: zero length, part of a chunk, one byte too many, data offsets, random
+	if len(chunks) > 0 {
+		c := chunks[r.Intn(len(chunks))]
+		reads = append(reads, readReq{c.Off, 0}, readReq{c.Off, c.Len - 1}, readReq{c.Off, c.Len + 1}, readReq{c.Off + 12, c.Len})
+	}
+	for k := 0; k < 3; k++ {
+		reads = append(reads, readReq{r.Intn(len(file) + 3), r.Intn(14)})
+	}
+	var obs []string
+	mpath := filepath.Join(tmp, "mut.bin")
+	for _, m := range muts {
+		mf := m.apply(file)
+		_ = os.WriteFile(mpath, mf, 0o644)
+		var items []string
+		for ri, rq := range reads {
+			code, data, msg := realRead(mpath, rq.Off, rq.Len)
+			sum.Eval(fmt.Sprintf("%s/%s/%d/%d/%d/%d", tag, m.Kind, m.K, m.V, rq.Off, rq.Len), !bytes.Equal(mf, file))
+			sum.Count("direct/" + m.Kind)
+			sum.Count(fmt.Sprintf("direct/result/%d", code))
+			c := directCase{Kind: tag, Ops: ops, File: file, Mut: m, Off: rq.Off, Len: rq.Len, Code: code, Data: data, Error: msg}
+			items = append(items, fmt.Sprintf("((%d, %d), (%d, %s))", rq.Off, rq.Len, code, vhlib.CoqBytes(data)))
+			if code == 3 {
+				sum.Fail("checksumfile_readat_panic", fmt.Sprintf("ReadAt(%d bytes @%d) on %s of a %d-byte file: %s", rq.Len, rq.Off, m.coq(), len(file), msg), c)
+				continue
+			}
+			if ri >= nAligned || chunks == nil {
+				continue
+			}
+			// ---- property oracle (aligned reads of a well-formed chunk file) ----
+			sp := spans[ri]
+			orig := file[0:0:0]
+			for j := sp.i; j <= sp.j; j++ {
+				orig = append(orig, file[chunks[j].Off+12:chunks[j].Off+12+chunks[j].Len]...)
+			}
+			regionEnd := chunks[sp.j].Off + 12 + chunks[sp.j].Len
+			regionStart := chunks[sp.i].Off
+			switch m.Kind {
+			case "keep":
+				if code != 0 || !bytes.Equal(data, orig) {
+					sum.Fail("checksum_roundtrip_broken", fmt.Sprintf("intact file: ReadAt(chunks %d..%d) code=%d %s", sp.i, sp.j, code, msg), c)
+				}
+			case "trunc":
+				if m.K >= regionEnd {
+					if code != 0 || !bytes.Equal(data, orig) {
+						sum.Fail("truncation_affects_intact_chunks", fmt.Sprintf("cut at %d beyond chunks %d..%d (end %d): code=%d %s", m.K, sp.i, sp.j, regionEnd, code, msg), c)
+					}
+				} else if code == 0 {
+					cls := "truncated_chunk_returned_data"
+					if !bytes.Equal(data, orig) {
+						cls = "altered_values_from_checksummed_block"
+					}
+					sum.Fail(cls, fmt.Sprintf("cut at %d inside chunks %d..%d (end %d) but ReadAt returned %d bytes with nil error", m.K, sp.i, sp.j, regionEnd, len(data)), c)
+				}
+			case "flip":
+				touched := m.K >= regionStart && m.K < regionEnd
+				if !touched {
+					if code != 0 || !bytes.Equal(data, orig) {
+						sum.Fail("damage_affects_other_chunks", fmt.Sprintf("byte %d altered, chunks %d..%d [%d,%d) not touched: code=%d %s", m.K, sp.i, sp.j, regionStart, regionEnd, code, msg), c)
+					}
+					break
+				}
+				// which chunk / field
+				ci, fo := 0, 0
+				for j := sp.i; j <= sp.j; j++ {
+					if m.K >= chunks[j].Off && m.K < chunks[j].Off+12+chunks[j].Len {
+						ci, fo = j, m.K-chunks[j].Off
+					}
+				}
+				fld := fieldName(fo)
+				sum.Count("direct/flip_touching/" + fld)
+				if code == 0 && !bytes.Equal(data, orig) {
+					cls := "altered_values_from_checksummed_block"
+					if ci == 0 && fld == "magic" {
+						cls = "first_chunk_magic_damage_unverified_read"
+					}
+					sum.Fail(cls, fmt.Sprintf("byte %d (%s of chunk %d) set to %d: ReadAt(%d bytes @%d) returned nil error and data %v instead of %v",
+						m.K, fld, ci, m.V, rq.Len, rq.Off, data, orig), c)
+				} else if code == 0 && fld != "len" {
+					// data equal to the original although a byte of magic/crc/data changed: impossible for data, accepted damage for magic/crc
+					sum.Fail("damaged_chunk_accepted", fmt.Sprintf("byte %d (%s of chunk %d) set to %d was not noticed", m.K, fld, ci, m.V), c)
+				}
+			}
+		}
+		obs = append(obs, fmt.Sprintf("(%s, %s)", m.coq(), vhlib.CoqList(items)))
+		if sum.Evaluations%997 == 1 {
+			sum.Sample(map[string]interface{}{"stream": "direct", "file": tag, "file_len": len(file), "chunks": len(chunks), "mutation": m.coq(), "reads": len(reads)})
+		}
+	}
+	return obs, len(reads)
+}
+
+func genMuts(r *vhlib.Rng, f []byte, chunks []chunkPos, thorough bool, nflips int, includeFirstMagic bool) []mut {
+	ms := []mut{{Kind: "keep"}}
+	for k := 0; k < len(f); k++ {
+		ms = append(ms, mut{Kind: "trunc", K: k})
+	}
+	firstMagic := func(i int) bool { return len(chunks) > 0 && i < 4 }
+	add := func(i, v int) {
+		v &= 0xFF
+		if i >= len(f) || int(f[i]) == v {
+			return
+		}
+		if firstMagic(i) && !includeFirstMagic {
+			return // known class, generated by the separate stream
+		}
+		ms = append(ms, mut{Kind: "flip", K: i, V: v})
+	}
+	if thorough {
+		for i := range f {
+			for _, v := range []int{int(f[i]) ^ 0xFF, int(f[i]) ^ 0x01, 0, int(f[i]) ^ 0x80, int(f[i]) + 1} {
+				add(i, v)
+			}
+		}
+		return ms
+	}
+	// every header byte of every chunk once, then random positions
+	for _, c := range chunks {
+		for o := 0; o < 12; o++ {
+			add(c.Off+o, int(f[c.Off+o])^(1<<uint(r.Intn(8))))
+		}
+	}
+	for j := 0; j < nflips && len(f) > 0; j++ {
+		i := r.Intn(len(f))
+		v := r.Intn(256)
+		if r.Chance(50) {
+			v = int(f[i]) ^ (1 << uint(r.Intn(8)))
+		}
+		add(i, v)
+	}
+	return ms
+}
+
+func randBytes(r *vhlib.Rng, n int) []byte {
+	b := make([]byte, n)
+	for i := range b {
+		switch r.Intn(6) {
+		case 0:
+			b[i] = 0
+		case 1:
+			b[i] = 0xFF
+		case 2:
+			b[i] = []byte{0x21, 0x43, 0x65, 0x87}[i%4] // looks like the magic number
+		default:
+			b[i] = byte(r.Intn(256))
+		}
+	}
+	return b
+}
+
+func coqOps(ops []wop) string {
+	items := make([]string, len(ops))
+	for i, o := range ops {
+		items[i] = o.coq()
+	}
+	return vhlib.CoqList(items)
+}
+
+func runDirect(cfg vhlib.Config, sum *vhlib.Summary, r *vhlib.Rng) {
+	tmp := filepath.Join(cfg.Out, "direct")
+	_ = os.MkdirAll(tmp, 0o755)
+	nfiles, nflips := 7, 45
+	if cfg.Thorough() {
+		nfiles = 36
+	}
+	for fi := 0; fi < nfiles; fi++ {
+		rr := r.Fork()
+		var ops []wop
+		kind := "chunks"
+		switch {
+		case fi%7 == 5:
+			kind = "legacy" // no magic number at offset 0: the backward-compatible raw read
+		case fi%7 == 6:
+			kind = "misuse" // API misuse: chunk while a partial one is open, flush without data, empty data
+		}
+		var file []byte
+		var err error
+		path := filepath.Join(tmp, fmt.Sprintf("f%d.bin", fi))
+		switch kind {
+		case "chunks":
+			nc := rr.Range(1, 4)
+			for c := 0; c < nc; c++ {
+				if rr.Chance(50) {
+					ops = append(ops, wop{Kind: "chunk", Data: randBytes(rr, rr.Range(1, 12))})
+				} else {
+					// writeWip shape: one byte of encoding type, then the block
+					ops = append(ops, wop{Kind: "partial", Data: []byte{byte(rr.Intn(3))}})
+					if rr.Chance(85) {
+						ops = append(ops, wop{Kind: "partial", Data: randBytes(rr, rr.Range(1, 11))})
+					}
+					if rr.Chance(20) {
+						ops = append(ops, wop{Kind: "partial", Data: nil})
+					}
+					ops = append(ops, wop{Kind: "flush"})
+				}
+			}
+			file, err = realWrite(path, ops)
+		case "legacy":
+			file = randBytes(rr, rr.Range(5, 40))
+			if file[0] == 0x21 {
+				file[0] = 0x20
+			}
+			err = os.WriteFile(path, file, 0o644)
+		case "misuse":
+			ops = []wop{{Kind: "chunk", Data: randBytes(rr, 3)}, {Kind: "chunk", Data: nil}, {Kind: "partial", Data: randBytes(rr, 2)},
+				{Kind: "chunk", Data: randBytes(rr, 2)}, {Kind: "partial", Data: randBytes(rr, 3)}, {Kind: "flush"}}
+			if rr.Chance(50) {
+				ops = append(ops, wop{Kind: "flush"}) // a second Flush rewrites the header at offset 0 with crc 0 / length 0
+			}
+			file, err = realWrite(path, ops)
+		}
+		if err != nil {
+			sum.HarnessError("direct write: " + err.Error())
+			continue
+		}
+		sum.Count("direct/file/" + kind)
+		var chunks []chunkPos
+		if kind == "chunks" {
+			var ok bool
+			chunks, ok = scanChunks(file)
+			if !ok {
+				sum.Fail("chunk_layout_broken", fmt.Sprintf("file written by the real ChecksumFile is not a sequence of magic|crc|len|data chunks (%d bytes)", len(file)),
+					directCase{Kind: kind, Ops: ops, File: file})
+				chunks = nil
+			}
+		}
+		muts := genMuts(rr, file, chunks, cfg.Thorough(), nflips, false)
+		obs, nreads := sweepFile(sum, fmt.Sprintf("%s%d", kind, fi), ops, file, chunks, muts, rr, tmp)
+		// known-defect stream: the 4 magic bytes of the first chunk
+		var kobs []string
+		if kind == "chunks" && chunks != nil {
+			var km []mut
+			for i := 0; i < 4; i++ {
+				km = append(km, mut{Kind: "flip", K: i, V: int(file[i]) ^ (1 << uint(rr.Intn(8)))})
+				if cfg.Thorough() {
+					km = append(km, mut{Kind: "flip", K: i, V: int(file[i]) ^ 0xFF}, mut{Kind: "flip", K: i, V: 0})
+				}
+			}
+			kobs, _ = sweepFile(sum, fmt.Sprintf("%s%d/known", kind, fi), ops, file, chunks, km, rr, tmp)
+		}
+		all := append(obs, kobs...)
+		// shard the case files
+		const per = 60
+		for s := 0; s*per < len(all); s++ {
+			hi := (s + 1) * per
+			if hi > len(all) {
+				hi = len(all)
+			}
+			var defs, expr string
+			if kind == "legacy" {
+				defs = "Definition file : list N := " + vhlib.CoqBytes(file) + ".\n" +
+					"Definition obs : list (mutation * list read_obs) := " + vhlib.CoqListNL(all[s*per:hi]) + ".\n"
+				expr = "check_muts file obs 1"
+			} else {
+				defs = "Definition ops : list wop := " + coqOps(ops) + ".\n" +
+					"Definition file : list N := " + vhlib.CoqBytes(file) + ".\n" +
+					"Definition obs : list (mutation * list read_obs) := " + vhlib.CoqListNL(all[s*per:hi]) + ".\n"
+				expr = "check_ops ops file obs"
+			}
+			sum.WriteCaseFile(cfg.Out, fmt.Sprintf("cases_direct_%d_%d", fi, s), "From SigM Require Import Base Crc32 ChecksumFile ChecksumFileCheck.\n", defs, expr, (hi-s*per)*nreads+1)
+		}
+	}
+}
+
+// ---------------------------------------------------------------------------
+// (b) end to end
+// ---------------------------------------------------------------------------
+
+type storeFile struct {
+	Rel  string // path relative to the data dir
+	Size int
+	Seg  string // A | B | M | shared
+	Kind string // extension / role
+}
+
+type e2eMut struct {
+	File string `json:"file"`
+	Kind string `json:"kind"` // xor | set | trunc
+	Pos  int    `json:"pos"`
+	Val  int    `json:"val"`
+	Size int    `json:"file_size"`
+	// known-class hang sample: run once with the generous per-query limit instead of twice
+	Generous bool `json:"generous,omitempty"`
+}
+
+func (m e2eMut) String() string {
+	if m.Kind == "trunc" {
+		return fmt.Sprintf("truncate %s (%d bytes) to %d", m.File, m.Size, m.Pos)
+	}
+	return fmt.Sprintf("%s 0x%02X byte %d of %s (%d bytes)", m.Kind, m.Val, m.Pos, m.File, m.Size)
+}
+
+func (m e2eMut) apply(b []byte) []byte {
+	out := append([]byte{}, b...)
+	switch m.Kind {
+	case "trunc":
+		if m.Pos < len(out) {
+			out = out[:m.Pos]
+		}
+	case "xor":
+		if m.Pos < len(out) {
+			out[m.Pos] ^= byte(m.Val)
+		}
+	case "set":
+		if m.Pos < len(out) {
+			out[m.Pos] = byte(m.Val)
+		}
+	}
+	return out
+}
+
+func classifyFile(rel string) (seg, kind string, ok bool) {
+	parts := strings.Split(rel, "/")
+	base := parts[len(parts)-1]
+	switch {
+	case strings.Contains(rel, "/final/"+indexName+"/"):
+		// .../final/c18idx/<stream>/<segnum>/...
+		for i, p := range parts {
+			if p == indexName && i+2 < len(parts) {
+				switch parts[i+2] {
+				case "0":
+					seg = "A"
+				case "1":
+					seg = "B"
+				}
+			}
+		}
+		if seg == "" {
+			return "", "", false
+		}
+		kind = strings.TrimPrefix(filepath.Ext(base), ".")
+		if kind == "" {
+			kind = "noext"
+		}
+		return seg, kind, true
+	case strings.Contains(rel, "/final/ts/") || strings.Contains(rel, "/final/tth/"):
+		kind = strings.TrimPrefix(filepath.Ext(base), ".")
+		if kind == "" {
+			kind = "tth"
+		}
+		if base == "segment-validity.json" {
+			return "", "", false
+		}
+		return "M", kind, true
+	case base == "segmeta.json" || base == "metricmeta.json":
+		return "shared", base, true
+	}
+	return "", "", false // suffix files, WAL (C10), virtual table names: not segment files
+}
+
+func listStore(data string) ([]storeFile, error) {
+	var out []storeFile
+	err := filepath.Walk(data, func(p string, info os.FileInfo, err error) error {
+		if err != nil || info.IsDir() {
+			return err
+		}
+		rel, _ := filepath.Rel(data, p)
+		seg, kind, ok := classifyFile(rel)
+		if ok {
+			out = append(out, storeFile{Rel: rel, Size: int(info.Size()), Seg: seg, Kind: kind})
+		}
+		return nil
+	})
+	sort.Slice(out, func(i, j int) bool { return out[i].Rel < out[j].Rel })
+	return out, err
+}
+
+func copyTree(src, dst string) error {
+	return filepath.Walk(src, func(p string, info os.FileInfo, err error) error {
+		if err != nil {
+			return err
+		}
+		rel, _ := filepath.Rel(src, p)
+		t := filepath.Join(dst, rel)
+		if info.IsDir() {
+			return os.MkdirAll(t, 0o755)
+		}
+		b, err := os.ReadFile(p)
+		if err != nil {
+			return err
+		}
+		return os.WriteFile(t, b, 0o644)
+	})
+}
+
+const workerVmKB = 6000000 // ulimit -v of a query worker (a hostile length field cannot take the machine down)
+
+// runs the query worker on the store at dir; returns observations, status: ok | crash | hang
+func runQueryWorker(data, outPath string, timeout time.Duration, perQuerySec int) (*workerOut, string, string) {
+	_ = os.Remove(outPath)
+	ctx, cancel := context.WithTimeout(context.Background(), timeout)
+	defer cancel()
+	cmd := exec.CommandContext(ctx, "/bin/sh", "-c", fmt.Sprintf("ulimit -v %d; exec %q worker query %q %q 1 %d", workerVmKB, os.Args[0], data, outPath, perQuerySec))
+	var stderr bytes.Buffer
+	cmd.Stderr = &stderr
+	err := cmd.Run()
+	var wo workerOut
+	if b, rerr := os.ReadFile(outPath); rerr == nil {
+		_ = json.Unmarshal(b, &wo)
+	}
+	tail := stderr.String()
+	// keep the first fatal/panic line
+	msg := ""
+	for _, ln := range strings.Split(tail, "\n") {
+		if strings.HasPrefix(ln, "fatal error:") || strings.HasPrefix(ln, "panic:") || strings.Contains(ln, "out of memory") || strings.Contains(ln, "cannot allocate") {
+			msg = ln
+			break
+		}
+	}
+	// the first siglens frame below the panic: the crash site
+	if i := strings.Index(tail, "[running]:"); i >= 0 {
+		for _, ln := range strings.Split(tail[i:], "\n") {
+			if strings.HasPrefix(ln, "github.com/siglens/siglens/") {
+				site := ln
+				if k := strings.LastIndex(site, "("); k > 0 {
+					site = site[:k]
+				}
+				msg += " at " + strings.TrimPrefix(site, "github.com/siglens/siglens/")
+				break
+			}
+		}
+	}
+	if ctx.Err() == context.DeadlineExceeded {
+		return &wo, "hang", msg
+	}
+	for _, q := range wo.Q {
+		if q.Err == "timeout" && err == nil && wo.Done {
+			return &wo, "hang", "query " + q.Name + " did not return within the per-query limit"
+		}
+	}
+	if err != nil || !wo.Done {
+		if msg == "" && len(tail) > 300 {
+			msg = tail[len(tail)-300:]
+		} else if msg == "" {
+			msg = tail
+		}
+		return &wo, "crash", fmt.Sprintf("%v: %s", err, msg)
+	}
+	return &wo, "ok", ""
+}
+
+// ---- expected answers per set of searchable blocks (A1, A2, B) ----
+type unit struct {
+	Name string
+	Seg  string
+	Evs  []event
+}
+
+func units() []unit {
+	a1, a2, b := storeEvents()
+	return []unit{{"A1", "A", a1}, {"A2", "A", a2}, {"B", "B", b}}
+}
+
+func evRecord(e event) string {
+	return canon(map[string]interface{}{"grp": e.Grp, "id": e.ID, "msg": e.Msg, "n": e.N, "seg": e.Seg, "timestamp": tsBase + uint64(e.ID), "w": e.Word})
+}
+
+// matches of a log search query on one event (the spec side of the four search queries)
+func evMatches(q string, e event) bool {
+	switch q {
+	case "all":
+		return true
+	case "term":
+		return e.Word == "alpha"
+	case "msg":
+		return e.Msg == "msg-a-7-xx" || e.Msg == "msg-b-104-xxxx"
+	case "num":
+		return e.N > 50 && e.N < 1060
+	}
+	return false
+}
+
+func expectedStats(q string, evs []event) map[string]string {
+	out := map[string]string{}
+	switch q {
+	case "stats":
+		type acc struct{ c, s int }
+		m := map[string]*acc{}
+		for _, e := range evs {
+			if m[e.Grp] == nil {
+				m[e.Grp] = &acc{}
+			}
+			m[e.Grp].c++
+			m[e.Grp].s += e.N
+		}
+		for g, a := range m {
+			out[g] = fmt.Sprintf("{\"c\":%d,\"s\":%d}", a.c, a.s)
+		}
+	case "count":
+		c := 0
+		for _, e := range evs {
+			if e.Word == "alpha" {
+				c++
+			}
+		}
+		out["*"] = fmt.Sprintf("{\"c\":%d}", c)
+	}
+	return out
+}
+
+func eqMap(a, b map[string]string) bool {
+	if len(a) != len(b) {
+		return false
+	}
+	for k, v := range a {
+		if b[k] != v {
+			return false
+		}
+	}
+	return true
+}
+
+// outcome of one query for the three log units: which units are missing, or altered
+type qOutcome struct {
+	Missing map[string]bool // unit names (search: a unit is missing if ANY of its matching records is missing)
+	ColMiss map[string]bool // units with a record returned without some of its columns (the present ones are original)
+	Altered string          // non-empty: description of values that were never ingested / wrong aggregates
+	Err     string
+}
+
+// got is want with some columns left out (all present values original)
+func columnsOmitted(got, want string) bool {
+	var g, w map[string]interface{}
+	if json.Unmarshal([]byte(got), &g) != nil || json.Unmarshal([]byte(want), &w) != nil {
+		return false
+	}
+	for k, v := range g {
+		wv, ok := w[k]
+		if !ok || canon(wv) != canon(v) {
+			return false
+		}
+	}
+	return len(g) < len(w)
+}
+
+func judgeQuery(q qres) qOutcome {
+	o := qOutcome{Missing: map[string]bool{}, ColMiss: map[string]bool{}, Err: q.Err}
+	us := units()
+	switch q.Name {
+	case "all", "term", "msg", "num":
+		want := map[string]string{}
+		owner := map[string]string{}
+		for _, u := range us {
+			for _, e := range u.Evs {
+				if evMatches(q.Name, e) {
+					k := fmt.Sprintf("%d", e.ID)
+					want[k] = evRecord(e)
+					owner[k] = u.Name
+				}
+			}
+		}
+		for k, rec := range q.Recs {
+			w, ok := want[k]
+			if !ok {
+				o.Altered = fmt.Sprintf("record id=%s not expected for query %s: %s", k, q.Name, rec)
+			} else if w != rec {
+				if columnsOmitted(rec, w) {
+					o.ColMiss[owner[k]] = true
+				} else {
+					o.Altered = fmt.Sprintf("record id=%s altered: got %s want %s", k, rec, w)
+				}
+			}
+		}
+		for _, rec := range q.NoID {
+			// a record without its id column: acceptable only as "columns omitted" of some expected record
+			ok := false
+			for k, w := range want {
+				if columnsOmitted(rec, w) {
+					ok = true
+					o.ColMiss[owner[k]] = true
+					o.Missing[owner[k]] = o.Missing[owner[k]] // attribution only
+					break
+				}
+			}
+			if !ok {
+				o.Altered = fmt.Sprintf("record without id that is no projection of an ingested record: %s", rec)
+			}
+		}
+		if q.Dup {
+			o.Altered = "duplicate record id"
+		}
+		for k := range want {
+			if _, ok := q.Recs[k]; !ok && len(q.NoID) == 0 {
+				o.Missing[owner[k]] = true
+			}
+		}
+		for u, v := range o.Missing {
+			if !v {
+				delete(o.Missing, u)
+			}
+		}
+	case "stats", "count":
+		// the answer must be the aggregate over some subset of the blocks
+		found := false
+		for mask := 7; mask >= 0 && !found; mask-- {
+			var evs []event
+			miss := map[string]bool{}
+			for i, u := range us {
+				if mask&(1<<uint(i)) != 0 {
+					evs = append(evs, u.Evs...)
+				} else {
+					miss[u.Name] = true
+				}
+			}
+			exp := expectedStats(q.Name, evs)
+			got := q.Groups
+			if got == nil {
+				got = map[string]string{}
+			}
+			if q.Name == "count" && len(got) == 0 {
+				got = map[string]string{"*": "{\"c\":0}"}
+			}
+			if eqMap(exp, got) {
+				found = true
+				o.Missing = miss
+			}
+		}
+		if !found {
+			o.Altered = fmt.Sprintf("aggregate %s matches no subset of the ingested blocks: %v", q.Name, q.Groups)
+		}
+		if q.Dup {
+			o.Altered = "duplicate group"
+		}
+	}
+	return o
+}
+
+func unitSeg(u string) string {
+	if strings.HasPrefix(u, "A") {
+		return "A"
+	}
+	return "B"
+}
+
+type lane struct {
+	dir, data, pristine string
+}
+
+type e2eResult struct {
+	Mut     e2eMut
+	SF      storeFile
+	Status  string // ok | crash | hang
+	Msg     string
+	Out     *workerOut
+	Outcome string // same | missing | missing_err | altered | crash | hang | cross
+}
+
+func bloomLenField(file []byte, pos int) (bool, uint64) {
+	// .cmi = records [size LE32][blockNum LE16][type][payload]; bloom payload = m BE64, k BE64, bitset length BE64, words
+	p := 0
+	for p+7 <= len(file) {
+		size := int(utils.BytesToUint32LittleEndian(file[p : p+4]))
+		typ := file[p+6]
+		if typ == 1 && pos >= p+23 && pos < p+31 && p+31 <= len(file) {
+			return true, 0
+		}
+		if size <= 0 {
+			break
+		}
+		p += 4 + size
+	}
+	return false, 0
+}
+
+// known crash sites (file kind, first siglens frame below the panic) -> known sub-class of
+// query_crash_on_damaged_file; anything else stays in the generic class (= VIOLATION)
+var crashSites = []struct{ kind, site, class string }{
+	{"bsu", "microreader.ReadBlockSummaries", "bsu_truncated_block_summary_panic"},
+	{"cmi", "metadata.readRangeIndexFromByteArray", "cmi_range_index_length_panic"},
+	{"cmi", "metadata.rangeIndexToBytes", "cmi_range_index_length_panic"},
+	{"cmi", "metadata.doBloomCheckForCol", "cmi_bloom_zero_size_divide_panic"},
+	{"mbsu", "microreader.ReadMetricsBlockSummaries", "metrics_mbsu_truncated_panic"},
+	{"mbsu", "utils.BytesToUint16LittleEndian", "metrics_mbsu_truncated_panic"},
+	{"mbsu", "utils.BytesToUint32LittleEndian", "metrics_mbsu_truncated_panic"},
+	{"mnm", "metadata.ReadMetricNames", "metrics_mnm_length_panic"},
+	{"tsg", "metrics/series.", "metrics_series_offset_panic"},
+	{"tso", "metrics/series.", "metrics_series_offset_panic"},
+	{"tth", "metrics/tagstree.", "metrics_tagstree_length_panic"},
+}
+
+var allocRx = regexp.MustCompile(`cannot allocate (\d+)-byte block`)
+
+// class of a dead query process; "" = not judged (an allocation of at most 4 GiB + slack, taken
+// from a 32-bit on-disk length, refused by the worker's ulimit -v: it succeeds on a machine with
+// memory, as in C10; reported in the distribution only)
+func crashClass(f storeFile, known string, msg string) string {
+	if m := allocRx.FindStringSubmatch(msg); m != nil {
+		n, _ := strconv.ParseUint(m[1], 10, 64)
+		if n <= 5<<30 {
+			return ""
+		}
+		if f.Kind == "cmi" && known == "bloom_len" {
+			return "bloom_cmi_length_oom"
+		}
+		return "query_crash_on_damaged_file"
+	}
+	for _, cs := range crashSites {
+		if cs.kind == f.Kind && strings.Contains(msg, " at ") && strings.Contains(msg[strings.LastIndex(msg, " at "):], cs.site) {
+			return cs.class
+		}
+	}
+	return "query_crash_on_damaged_file"
+}
+
+var epochRx = regexp.MustCompile(`"(earliestEpochMs|latestEpochMs)":(\d+)`)
+
+// exact inputs of the known classes (generated in a separate stream; the main stream avoids them)
+//   bloom_len      : a byte of the bit-set length field of a bloom record of a .cmi file
+//   segmeta_epoch  : a digit of earliestEpochMs / latestEpochMs in segmeta.json
+//   csg_first_magic: byte 0..3 of a column file (magic number of its first chunk)
+func knownInput(m e2eMut, f storeFile, content []byte) string {
+	if m.Kind == "trunc" {
+		return ""
+	}
+	switch {
+	case f.Kind == "cmi":
+		if in, _ := bloomLenField(content, m.Pos); in {
+			return "bloom_len"
+		}
+	case f.Kind == "segmeta.json":
+		for _, loc := range epochRx.FindAllSubmatchIndex(content, -1) {
+			if m.Pos >= loc[4] && m.Pos < loc[5] {
+				return "segmeta_epoch"
+			}
+		}
+	case f.Kind == "csg":
+		if m.Pos < 4 {
+			return "csg_first_magic"
+		}
+	}
+	return ""
+}
+
+func runE2E(cfg vhlib.Config, sum *vhlib.Summary, r *vhlib.Rng) {
+	base := filepath.Join(cfg.Out, "e2e")
+	nl := 8
+	lanes := make([]lane, nl)
+	var wg sync.WaitGroup
+	errs := make([]error, nl)
+	for i := range lanes {
+		lanes[i] = lane{dir: filepath.Join(base, fmt.Sprintf("lane%d", i))}
+		lanes[i].data = filepath.Join(lanes[i].dir, "data")
+		lanes[i].pristine = filepath.Join(lanes[i].dir, "pristine")
+		wg.Add(1)
+		go func(l lane, i int) {
+			defer wg.Done()
+			_ = os.MkdirAll(l.dir, 0o755)
+			ctx, cancel := context.WithTimeout(context.Background(), 120*time.Second)
+			defer cancel()
+			out, err := exec.CommandContext(ctx, os.Args[0], "worker", "build", l.data, "1").CombinedOutput()
+			if err != nil {
+				t := string(out)
+				if len(t) > 400 {
+					t = t[len(t)-400:]
+				}
+				errs[i] = fmt.Errorf("build worker: %v: %s", err, t)
+				return
+			}
+			errs[i] = copyTree(l.data, l.pristine)
+		}(lanes[i], i)
+	}
+	wg.Wait()
+	for _, e := range errs {
+		if e != nil {
+			sum.HarnessError("e2e: " + e.Error())
+			return
+		}
+	}
+	files, err := listStore(lanes[0].pristine)
+	if err != nil || len(files) == 0 {
+		sum.HarnessError(fmt.Sprintf("e2e: cannot list the store: %v", err))
+		return
+	}
+	for i := 1; i < nl; i++ {
+		fi, _ := listStore(lanes[i].pristine)
+		if len(fi) != len(files) {
+			sum.HarnessError("e2e: the lanes' stores differ in their file lists")
+			return
+		}
+		for j := range fi {
+			if fi[j].Rel != files[j].Rel || fi[j].Size != files[j].Size {
+				sum.HarnessError(fmt.Sprintf("e2e: lane %d differs: %s (%d) vs %s (%d)", i, fi[j].Rel, fi[j].Size, files[j].Rel, files[j].Size))
+				return
+			}
+		}
+	}
+	// baseline on the pristine store: must be the specified answers
+	wo, st, msg := runQueryWorker(lanes[0].data, filepath.Join(lanes[0].dir, "obs.json"), 90*time.Second, 25)
+	if st != "ok" {
+		sum.HarnessError("e2e: baseline worker " + st + ": " + msg)
+		return
+	}
+	var baseMetrics map[string]string
+	for _, q := range wo.Q {
+		if q.Name == "metrics" {
+			baseMetrics = q.Groups
+			if len(q.Groups) != 2 || q.Err != "" {
+				sum.HarnessError(fmt.Sprintf("e2e: baseline metrics answer unexpected: %v %s", q.Groups, q.Err))
+				return
+			}
+			continue
+		}
+		o := judgeQuery(q)
+		if o.Altered != "" || len(o.Missing) > 0 || q.Err != "" {
+			sum.Fail("undamaged_store_wrong_answer", fmt.Sprintf("query %s on the undamaged store: altered=%q missing=%v err=%q", q.Name, o.Altered, o.Missing, q.Err),
+				map[string]interface{}{"query": q})
+			return
+		}
+	}
+	sum.Count("e2e/baseline_ok")
+
+	// ---- real column files vs the model (layout + reads) ----
+	csgFiles := 0
+	for _, f := range files {
+		if f.Kind != "csg" {
+			continue
+		}
+		b, _ := os.ReadFile(filepath.Join(lanes[0].pristine, f.Rel))
+		chunks, ok := scanChunks(b)
+		c := directCase{Kind: "csg:" + f.Rel, File: b}
+		if !ok || len(chunks) == 0 {
+			sum.Fail("chunk_layout_broken", "column file "+f.Rel+" written by the segment writer is not a sequence of magic|crc|len|data chunks", c)
+			continue
+		}
+		want := 1
+		if f.Seg == "A" {
+			want = 2
+		}
+		if len(chunks) != want {
+			sum.Fail("chunk_layout_broken", fmt.Sprintf("column file %s has %d chunks, the segment has %d blocks", f.Rel, len(chunks), want), c)
+		}
+		if csgFiles >= 4 && !cfg.Thorough() {
+			continue
+		}
+		csgFiles++
+		rr := r.Fork()
+		nfl := 25
+		muts := genMuts(rr, b, chunks, cfg.Thorough() && len(b) <= 120, nfl, true)
+		if !cfg.Thorough() {
+			// fewer truncations for the real files in the quick tier: every 3rd + chunk boundaries
+			var ms []mut
+			for _, m := range muts {
+				if m.Kind != "trunc" || m.K%3 == 0 {
+					ms = append(ms, m)
+				}
+			}
+			muts = ms
+		}
+		obs, nreads := sweepFile(sum, "csg/"+filepath.Base(f.Rel), nil, b, chunks, muts, rr, filepath.Join(cfg.Out, "direct"))
+		var blocks []string
+		for _, ch := range chunks {
+			blocks = append(blocks, vhlib.CoqBytes(b[ch.Off+12:ch.Off+12+ch.Len]))
+		}
+		const per = 60
+		for s := 0; s*per < len(obs); s++ {
+			hi := (s + 1) * per
+			if hi > len(obs) {
+				hi = len(obs)
+			}
+			defs := "Definition blocks : list (list N) := " + vhlib.CoqListNL(blocks) + ".\n" +
+				"Definition file : list N := " + vhlib.CoqBytes(b) + ".\n" +
+				"Definition obs : list (mutation * list read_obs) := " + vhlib.CoqListNL(obs[s*per:hi]) + ".\n"
+			sum.WriteCaseFile(cfg.Out, fmt.Sprintf("cases_csg_%d_%d", csgFiles, s), "From SigM Require Import Base Crc32 ChecksumFile ChecksumFileCheck.\n",
+				defs, "check_blocks blocks file obs", (hi-s*per)*nreads+1)
+		}
+	}
+
+	// ---- mutations ----
+	content := map[string][]byte{}
+	for _, f := range files {
+		b, _ := os.ReadFile(filepath.Join(lanes[0].pristine, f.Rel))
+		content[f.Rel] = b
+	}
+	var muts []e2eMut
+	var mfile []storeFile
+	knownStream := false
+	addMut := func(f storeFile, kind string, pos, val int) {
+		if f.Size == 0 {
+			return
+		}
+		if !knownStream && knownInput(e2eMut{File: f.Rel, Kind: kind, Pos: pos, Val: val}, f, content[f.Rel]) != "" {
+			sum.Count("e2e/known_input_left_to_known_stream")
+			return
+		}
+		if kind != "trunc" {
+			if pos >= f.Size {
+				return
+			}
+			if kind == "set" && int(content[f.Rel][pos]) == val {
+				return
+			}
+		} else if pos >= f.Size {
+			return
+		}
+		muts = append(muts, e2eMut{File: f.Rel, Kind: kind, Pos: pos, Val: val, Size: f.Size})
+		mfile = append(mfile, f)
+	}
+	if cfg.Thorough() {
+		for _, f := range files {
+			step := 1
+			if f.Size > 400 {
+				step = 7 // the larger files (sfm, sst, segmeta.json): every 7th position
+			}
+			if f.Size > 1500 {
+				step = 31 // pqmr
+			}
+			for p := 0; p < f.Size; p += step {
+				addMut(f, "xor", p, 0xFF)
+				addMut(f, "xor", p, 0x01)
+				addMut(f, "set", p, 0)
+				addMut(f, "trunc", p, 0)
+			}
+		}
+	} else {
+		// one file per (segment, kind), 8 mutations each
+		groups := map[string][]storeFile{}
+		var keys []string
+		for _, f := range files {
+			k := f.Seg + "/" + f.Kind
+			if _, ok := groups[k]; !ok {
+				keys = append(keys, k)
+			}
+			groups[k] = append(groups[k], f)
+		}
+		sort.Strings(keys)
+		for _, k := range keys {
+			g := groups[k]
+			f := g[r.Intn(len(g))]
+			addMut(f, "xor", r.Intn(min(8, f.Size)), 0xFF)
+			addMut(f, "xor", r.Intn(min(16, f.Size)), 1<<uint(r.Intn(8)))
+			addMut(f, "xor", r.Intn(f.Size), 0xFF)
+			addMut(f, "xor", r.Intn(f.Size), 0x01)
+			addMut(f, "set", r.Intn(f.Size), 0)
+			addMut(f, "trunc", f.Size/2, 0)
+			addMut(f, "trunc", f.Size-1, 0)
+			addMut(f, "trunc", 0, 0)
+			if len(g) > 1 { // a second file of the kind gets two more
+				f2 := g[r.Intn(len(g))]
+				addMut(f2, "xor", r.Intn(f2.Size), 0xFF)
+				addMut(f2, "trunc", r.Intn(f2.Size), 0)
+			}
+		}
+	}
+	if flt := os.Getenv("C18_E2E_FILTER"); flt != "" { // exploration / replay: only files whose path contains the string
+		var m2 []e2eMut
+		var f2 []storeFile
+		for i := range muts {
+			for _, fl := range strings.Split(flt, ",") {
+				if strings.Contains(muts[i].File, fl) {
+					m2, f2 = append(m2, muts[i]), append(f2, mfile[i])
+					break
+				}
+			}
+		}
+		muts, mfile = m2, f2
+	}
+	// ---- known-class stream ----
+	knownStream = true
+	nMain := len(muts)
+	epochSamples := 1
+	if cfg.Thorough() {
+		epochSamples = 3
+	}
+	for _, f := range files {
+		b := content[f.Rel]
+		switch {
+		case f.Kind == "cmi" && len(b) > 31 && b[6] == 1:
+			// bloom record 0: bit-set length = big-endian uint64 at bytes 23..30
+			addMut(f, "xor", 25, 0xFF)
+			if f.Seg == "A" {
+				addMut(f, "set", 14, 0) // m (number of bits) = 0 -> cmi_bloom_zero_size_divide_panic
+			}
+			if cfg.Thorough() {
+				for p := 23; p < 31; p++ {
+					addMut(f, "xor", p, 0x01)
+					addMut(f, "set", p, 0)
+					if p != 25 {
+						addMut(f, "xor", p, 0xFF)
+					}
+				}
+			}
+		case f.Kind == "csg":
+			// the encoding-type values: the unverified read hands byte 0 to the block decoder as encoding type
+			addMut(f, "set", 0, 0x02)
+			addMut(f, "set", 0, 0x01)
+			addMut(f, "set", 0, 0x00)
+			if cfg.Thorough() {
+				for p := 0; p < 4; p++ {
+					addMut(f, "xor", p, 0xFF)
+					addMut(f, "xor", p, 0x01)
+				}
+			}
+		case f.Kind == "cmi" && len(b) > 8 && b[6] == 2 && f.Seg == "A":
+			addMut(f, "xor", 7, 0xFF) // range index: length of the column name -> cmi_range_index_length_panic
+		case f.Kind == "bsu" && f.Seg == "A":
+			addMut(f, "trunc", 2, 0) // -> bsu_truncated_block_summary_panic
+		case f.Kind == "mbsu":
+			addMut(f, "trunc", 9, 0) // -> metrics_mbsu_truncated_panic
+		case f.Kind == "mnm":
+			addMut(f, "xor", 0, 0xFF) // -> metrics_mnm_length_panic
+		case f.Kind == "tsg":
+			addMut(f, "xor", 10, 0xFF) // -> metrics_series_offset_panic
+		case f.Kind == "tso":
+			addMut(f, "xor", 1, 0xFF) // -> metrics_series_offset_panic
+		case f.Kind == "tth":
+			addMut(f, "xor", 30, 0xFF) // -> metrics_tagstree_length_panic
+		case f.Kind == "segmeta.json":
+			for k, loc := range epochRx.FindAllSubmatchIndex(b, -1) {
+				if k < epochSamples {
+					// tens digit of the millisecond value: the segment's time range no longer covers its blocks
+					addMut(f, "xor", loc[5]-2, 0x01)
+					muts[len(muts)-1].Generous = true
+				}
+			}
+		}
+	}
+	knownIdx := map[int]bool{}
+	for i := nMain; i < len(muts); i++ {
+		knownIdx[i] = true
+	}
+
+	results := make([]e2eResult, len(muts))
+	jobs := make(chan int)
+	for li := range lanes {
+		wg.Add(1)
+		go func(l lane) {
+			defer wg.Done()
+			for i := range jobs {
+				m := muts[i]
+				// restore the whole store at the SAME path, then damage one file in place
+				_ = os.RemoveAll(l.data)
+				if err := copyTree(l.pristine, l.data); err != nil {
+					results[i] = e2eResult{Mut: m, SF: mfile[i], Status: "harness", Msg: err.Error()}
+					continue
+				}
+				p := filepath.Join(l.data, m.File)
+				b, _ := os.ReadFile(p)
+				_ = os.WriteFile(p, m.apply(b), 0o644)
+				lim := 12
+				if m.Generous {
+					lim = 40
+				}
+				wo, st, msg := runQueryWorker(l.data, filepath.Join(l.dir, "obs.json"), time.Duration(lim*7+30)*time.Second, lim)
+				results[i] = e2eResult{Mut: m, SF: mfile[i], Status: st, Msg: msg, Out: wo}
+			}
+		}(lanes[li])
+	}
+	for i := range muts {
+		if i%1000 == 999 {
+			fmt.Fprintf(os.Stderr, "c18 e2e: %d of %d mutations dispatched\n", i+1, len(muts))
+		}
+		jobs <- i
+	}
+	close(jobs)
+	wg.Wait()
+
+	// every hang is re-run alone with a generous limit before it is believed
+	for i := range results {
+		if results[i].Status != "hang" || results[i].Mut.Generous {
+			continue
+		}
+		sum.Count("e2e/timeout_rerun_alone")
+		l := lanes[0]
+		_ = os.RemoveAll(l.data)
+		_ = copyTree(l.pristine, l.data)
+		p := filepath.Join(l.data, results[i].Mut.File)
+		b, _ := os.ReadFile(p)
+		_ = os.WriteFile(p, results[i].Mut.apply(b), 0o644)
+		wo, st, msg := runQueryWorker(l.data, filepath.Join(l.dir, "obs.json"), 300*time.Second, 40)
+		results[i].Status, results[i].Msg, results[i].Out = st, msg, wo
+	}
+
+	logf, _ := os.Create(filepath.Join(cfg.Out, "e2e_results.jsonl"))
+	defer logf.Close()
+	for i, res := range results {
+		m, f := res.Mut, res.SF
+		stream := "main"
+		if knownIdx[i] {
+			stream = "known"
+		}
+		sum.Eval("e2e/"+m.String(), true)
+		sum.Count("e2e/file/" + f.Seg + "/" + f.Kind)
+		sum.Count("e2e/mutation/" + m.Kind)
+		c := map[string]interface{}{"stream": "e2e", "mutation": m, "segment": f.Seg, "status": res.Status, "message": res.Msg,
+			"how": "build the store with `c18 worker build <dir> 1`, apply the mutation to <dir>/" + m.File + ", run `c18 worker query <dir> out.json 1`"}
+		if res.Status != "ok" {
+			lb, _ := json.Marshal(map[string]interface{}{"m": m, "seg": f.Seg, "kind": f.Kind, "outcome": res.Status, "msg": res.Msg})
+			fmt.Fprintln(logf, string(lb))
+		}
+		switch res.Status {
+		case "harness":
+			sum.HarnessError("e2e: " + res.Msg)
+			continue
+		case "crash":
+			done := []string{}
+			for _, q := range res.Out.Q {
+				done = append(done, q.Name)
+			}
+			cls := crashClass(f, knownInput(m, f, content[f.Rel]), res.Msg)
+			if cls == "" {
+				sum.Count("e2e/outcome/alloc_le_4gib_refused_by_worker_vm_limit/" + f.Kind)
+				continue
+			}
+			sum.Count("e2e/outcome/crash/" + f.Kind)
+			sum.Count("e2e/crash_class/" + cls)
+			sum.Fail(cls, fmt.Sprintf("%s: the query process died (%s) after answering %v", m, res.Msg, done), c)
+			continue
+		case "hang":
+			sum.Count("e2e/outcome/hang/" + f.Kind)
+			hung := []string{}
+			for _, q := range res.Out.Q {
+				if q.Err == "timeout" {
+					hung = append(hung, q.Name)
+				}
+			}
+			hcls := "query_hang_on_damaged_file"
+			if knownInput(m, f, content[f.Rel]) == "segmeta_epoch" {
+				hcls = "segmeta_epoch_damage_search_spins"
+			}
+			sum.Fail(hcls, fmt.Sprintf("%s: run alone, queries %v did not return within 40 s, process spinning (%s)", m, hung, res.Msg), c)
+			continue
+		}
+		// judge the answers
+		outcome := "same"
+		var details []string
+		crossSeg := ""
+		altered := ""
+		colMissing := false
+		for _, q := range res.Out.Q {
+			if q.Name == "init" {
+				outcome = "missing_err"
+				details = append(details, "init: "+q.Err)
+				if f.Seg != "shared" {
+					crossSeg = "node start-up failed: " + q.Err
+				}
+				continue
+			}
+			if strings.HasPrefix(q.Err, "panic:") {
+				// no recover in the server's handlers: a panic in the request goroutine ends the process
+				cls := crashClass(f, knownInput(m, f, content[f.Rel]), q.Err)
+				sum.Count("e2e/outcome/panic_in_query/" + f.Kind)
+				sum.Count("e2e/crash_class/" + cls)
+				sum.Fail(cls, fmt.Sprintf("%s: query %s panicked in the request goroutine: %s", m, q.Name, q.Err), c)
+			}
+			if q.Name == "metrics" {
+				if q.Err != "" {
+					details = append(details, "metrics err: "+q.Err)
+				}
+				if eqMap(q.Groups, baseMetrics) {
+					continue
+				}
+				// series missing / error / altered points
+				bad := false
+				for s, pts := range q.Groups {
+					bp, ok := baseMetrics[s]
+					if !ok {
+						bad = true
+						altered = fmt.Sprintf("metrics series %s was never ingested (points %s)", s, pts)
+						continue
+					}
+					have := map[string]bool{}
+					for _, it := range strings.Split(bp, ";") {
+						have[it] = true
+					}
+					for _, it := range strings.Split(pts, ";") {
+						if !have[it] {
+							bad = true
+							altered = fmt.Sprintf("metrics series %s has point %s (ingested: %s)", s, it, bp)
+						}
+					}
+				}
+				if f.Seg != "M" && f.Seg != "shared" {
+					crossSeg = fmt.Sprintf("metrics answer changed: %v", q.Groups)
+				}
+				if !bad {
+					if q.Err != "" {
+						outcome = "missing_err"
+					} else if outcome == "same" {
+						outcome = "missing"
+					}
+				}
+				continue
+			}
+			o := judgeQuery(q)
+			if q.Err != "" {
+				details = append(details, q.Name+" err: "+q.Err)
+			}
+			if o.Altered != "" {
+				altered = q.Name + ": " + o.Altered
+			}
+			for u := range o.Missing {
+				if f.Seg != "shared" && unitSeg(u) != f.Seg {
+					crossSeg = fmt.Sprintf("query %s lost events of block %s (err=%q)", q.Name, u, q.Err)
+				}
+			}
+			for u := range o.ColMiss {
+				if f.Seg != "shared" && unitSeg(u) != f.Seg {
+					crossSeg = fmt.Sprintf("query %s returned records of block %s without some columns (err=%q)", q.Name, u, q.Err)
+				}
+				colMissing = true
+				details = append(details, fmt.Sprintf("%s: records of %s returned without some columns err=%q", q.Name, u, q.Err))
+			}
+			if len(o.Missing) > 0 {
+				if q.Err != "" {
+					outcome = "missing_err"
+				} else if outcome == "same" {
+					outcome = "missing"
+				}
+				details = append(details, fmt.Sprintf("%s: missing %v err=%q", q.Name, keys(o.Missing), q.Err))
+			}
+		}
+		if altered != "" {
+			outcome = "altered"
+			if f.Kind == "csg" && knownInput(m, f, content[f.Rel]) == "csg_first_magic" {
+				sum.Fail("first_chunk_magic_damage_unverified_read", fmt.Sprintf("END TO END: %s (magic number of the first chunk of a column file): %s", m, altered), c)
+			} else if f.Kind == "csg" {
+				sum.Fail("altered_values_from_checksummed_block", fmt.Sprintf("%s: %s", m, altered), c)
+			} else {
+				sum.Count("e2e/altered_unchecksummed/" + f.Kind)
+				if len(sum.Notes) < 12 {
+					sum.Notes = append(sum.Notes, fmt.Sprintf("altered values from a file without checksum (observed, not a violation of the checksummed-block clause): %s: %s", m, altered))
+				}
+			}
+		}
+		if colMissing && outcome == "same" {
+			outcome = "column_missing"
+		}
+		if crossSeg != "" {
+			sum.Count("e2e/outcome/cross/" + f.Kind)
+			sum.Fail("cross_segment_effect", fmt.Sprintf("%s (segment %s): %s", m, f.Seg, crossSeg), c)
+		}
+		sum.Count("e2e/outcome/" + outcome + "/" + f.Kind)
+		sum.Count("e2e/stream/" + stream)
+		lb, _ := json.Marshal(map[string]interface{}{"m": m, "seg": f.Seg, "kind": f.Kind, "outcome": outcome, "details": details, "altered": altered})
+		fmt.Fprintln(logf, string(lb))
+		if i%41 == 0 {
+			sum.Sample(map[string]interface{}{"stream": "e2e", "mutation": m.String(), "segment": f.Seg, "outcome": outcome, "details": details})
+		}
+	}
+}
+
+func keys(m map[string]bool) []string {
+	var out []string
+	for k := range m {
+		out = append(out, k)
+	}
+	sort.Strings(out)
+	return out
+}
 
 func main() {
 	if len(os.Args) >= 3 && os.Args[1] == "worker" {
 		switch os.Args[2] {
 		case "build":
-			workerBuild(os.Args[3], os.Args[4] == "1")
+			workerBuild(os.Args[3], len(os.Args) > 4 && os.Args[4] == "1")
 		case "query":
-			workerQuery(os.Args[3], os.Args[4], os.Args[5] == "1")
+			if len(os.Args) > 6 {
+				if n, err := strconv.Atoi(os.Args[6]); err == nil && n > 0 {
+					queryTimeout = time.Duration(n) * time.Second
+				}
+			}
+			workerQuery(os.Args[3], os.Args[4], len(os.Args) > 5 && os.Args[5] == "1")
 		}
 		return
 	}
-	dir := os.Args[1]
-	_ = os.RemoveAll(dir)
-	_ = os.MkdirAll(dir, 0o755)
-	out, err := exec.Command(os.Args[0], "worker", "build", filepath.Join(dir, "data"), "1").CombinedOutput()
-	fmt.Println(string(out), err)
-	out, err = exec.Command(os.Args[0], "worker", "query", filepath.Join(dir, "data"), filepath.Join(dir, "obs.json"), "1").CombinedOutput()
-	fmt.Println(string(out), err)
+	log.SetLevel(log.PanicLevel)
+	log.SetOutput(os.Stderr)
+	cfg := vhlib.ParseFlags()
+	sum := vhlib.NewSummary("direct stream: one case = one ReadAt call (offset, length) of the real ChecksumFile on one (file, mutation) pair; files of 1-4 chunks written by AppendChunk / AppendPartialChunk+Flush, " +
+		"legacy files, API-misuse files, and the real column files of the store; mutations: none, every truncation length, single-byte modifications " +
+		"(quick: every chunk-header byte + random positions; thorough: every position x 5 values). " +
+		"e2e stream: one case = one mutation (byte xor 0xFF / xor one bit / set 0 / truncation) of one stored file of a 2-log-segment + 1-metrics-segment store, " +
+		"7 queries in a fresh worker process. non-trivial = the mutation changes the file; distinct by (file, mutation, read)")
+	r := vhlib.NewRng(cfg.Seed)
+	runDirect(cfg, sum, r.Fork())
+	runE2E(cfg, sum, r.Fork())
+	sum.Write(cfg.Out)
 }
